@@ -19,19 +19,21 @@ CONFIG = {'assumptions': [
     'unit_length < 2^32 - 16 (32-bit format) and header_length representable: generated units are a few KB',
     'real objects: llvm-dwarfdump 14 is the reference consumer; its rows were computed when the corpus was built, '
     'the check itself runs no external tool']}
-LEVEL = {'text': 'Machine-checked (Props/C05.v, 18 theorems, closed under the global context): C05_rows_equal / '
+LEVEL = {'text': 'Machine-checked (Props/C05.v, 20 theorems, closed under the global context): C05_rows_equal / '
                  'C05_decode_instrs - for every header parameter set of the domain, both byte orders and address '
                  'sizes, every instruction list and EVERY valid encoding of it (padded LEB128, padded lengths) the '
                  'model of LineProgram._decode_line_program emits exactly the rows of the DWARF 6.2 state machine '
                  'written from the standard (induction over the program; per-instruction simulation C05_step), stops '
-                 'at distance 0 from the declared end and leaves the stream at the next byte, fuel never runs out; '
+                 'at distance 0 from the declared end and leaves the stream at the next byte; C05_decode_total - on arbitrary '
+                 'bytes the loop model never ends by fuel exhaustion; '
                  'C05_header_parse / C05_resolve_strings / C05_header_roundtrip - the model of Dwarf_lineprog_header '
                  '(v2-v5, DWARF32/64, v5 entry formats over string, line_strp, strp, udata, data1/2/4/8/16, block) '
                  'and of _parse_line_program_at_offset returns the encoded tables, the resolved strings, the legacy '
                  'include_directory/file_entry arrays and the extent [first program byte, end of unit) for a unit '
                  'placed anywhere in .debug_line; C05_unit_rows - the composition (header + get_entries); '
                  'C05_program_for_unit - line_program_for_CU returns the program at DW_AT_stmt_list through a '
-                 'coherent offset cache; C05_gen_* - DW_LNS/DW_LNE/LNCT numbers and the form -> parser bindings '
+                 'coherent offset cache; C05_gen_* - DW_LNS/DW_LNE/LNCT numbers, the form -> parser bindings and the member list of '
+                 'Dwarf_lineprog_header (names, order, widths, version conditions, probed from the live construct tree) '
                  'regenerated from the live modules equal the standard tables; C05_*encoder_in_relation / '
                  'C05_checked_unit_rows - every generated case the driver certifies is an instance of the theorems. '
                  'The hand models are pinned to the code by correspondence through the real LineProgram, '
@@ -249,9 +251,9 @@ def gen(ctx):
     rng = ctx.rng
     cases = []
     # ---- prog: LineProgram directly over a stream
-    sizes = [0, 1, 2, 3] + [rng.randint(1, 12) for _ in range(ctx.scale(220, 2500))] + \
-            [rng.randint(20, 120) for _ in range(ctx.scale(60, 600))] + \
-            [rng.randint(500, 2000) for _ in range(ctx.scale(3, 40))] + [2000]
+    sizes = [0, 1, 2, 3] + [rng.randint(1, 12) for _ in range(ctx.scale(500, 12000))] + \
+            [rng.randint(20, 120) for _ in range(ctx.scale(150, 3000))] + \
+            [rng.randint(500, 2000) for _ in range(ctx.scale(6, 120))] + [2000]
     for n in sizes:
         version = rng.choice([2, 3, 4, 4, 5])
         le = rng.random() < 0.6
@@ -269,14 +271,14 @@ def gen(ctx):
     cases.append(('prog', [True, 4, 4, [1, 4, 1, -5, 14, 13], [[['special', 13 + 14], 0, 0], [['fixed_advance_pc', 8], 0, 0], [['copy'], 0, 0]], b'', b'']))
     cases.append(('prog', [True, 4, 4, [1, 4, 1, -5, 14, 13], [[['special', 13 + 14], 0, 0], [['set_address', 64], 0, 0], [['copy'], 0, 0]], b'', b'']))
     # ---- raw: arbitrary bytes as a program (implementation vs model only)
-    for _ in range(ctx.scale(120, 1500)):
+    for _ in range(ctx.scale(200, 4000)):
         version = rng.choice([2, 3, 4, 5])
         params = gen_params(rng, version)
         n = rng.randint(0, 30)
         data = bytes(rng.choice([0, 0, 1, 2, 3, 4, 9, 12, 13, 0x80, rng.getrandbits(8), rng.getrandbits(8)]) for _ in range(n))
         cases.append(('raw', [rng.random() < 0.5, rng.choice([4, 8]), version, params, data, rng.randint(0, n)]))
     # ---- unit / cu: complete units in a .debug_line section
-    for kind, count in (('unit', ctx.scale(150, 1500)), ('cu', ctx.scale(70, 700))):
+    for kind, count in (('unit', ctx.scale(400, 6000)), ('cu', ctx.scale(150, 2500))):
         for _ in range(count):
             le = rng.random() < 0.6
             k = rng.choice([0, 0, 0, 1, 2])
